@@ -260,8 +260,8 @@ def run_job(job):
             stats["fake_worlds"] += int(fake)
             stats["compared_values"] += 14 if fake else 31
             seen.add((pw[0], cred[0], idu[0], ids_[0], ctx[0], fake, str(ksfn)))
-            if not samples and not bad and not fake:
-                samples.append(dict(case, KE2=lg.cresp[:64] + "...", session_key=lg.session_key_c, model_agrees=True))
+            if not samples and not fake:
+                samples.append(dict(case, KE2=lg.cresp[:64] + "...", session_key=lg.session_key_c, model_agrees=not bad))
             s.cmd("clear")
     stats["suites"][su] = stats["worlds"]
     return {"evals": evals, "nontrivial": len(seen), "samples": samples, "violations": viol, "inconclusive": [], "stats": stats}
